@@ -333,3 +333,8 @@ PROPS["C20"]["units"] = PROPS["C20"]["units"] + ["hedge"]
 NOT_APPLICABLE = {
 }
 ALL = ["C%02d" % i for i in range(1, 21)]
+
+# unit `layers` (Layer::layer of every middleware hands over exactly the layer's configuration) serves every property whose layer it covers
+for _p in ("C01", "C02", "C03", "C04", "C05", "C06", "C07", "C09", "C10", "C11", "C12", "C13", "C15", "C17", "C19", "C20"):
+    if "layers" not in PROPS[_p]["units"]:
+        PROPS[_p]["units"] = list(PROPS[_p]["units"]) + ["layers"]
